@@ -121,6 +121,7 @@ func TestC18(t *testing.T) {
 			bs = []c18Behaviour{{Kind: "ok", Addr: addrs[0], Filtered: true}}
 		}
 		ifaceT := rapid.Bool().Draw(rt, "dialer_of_interface_type")
+		callerDeadline := rapid.IntRange(0, 2).Draw(rt, "caller_context_has_far_deadline") == 0
 		maxc := rapid.IntRange(0, 4).Draw(rt, "maxconc")
 		delay := []time.Duration{0, 10 * time.Millisecond, time.Second, 5 * time.Second}[rapid.IntRange(0, 3).Draw(rt, "delay")]
 		timeout := []time.Duration{0, 50 * time.Millisecond, 2 * time.Second, 35 * time.Second}[rapid.IntRange(0, 3).Draw(rt, "timeout")]
@@ -251,6 +252,13 @@ func TestC18(t *testing.T) {
 				}
 				ctx, cancel := context.WithCancel(context.Background())
 				defer cancel()
+				if callerDeadline {
+					// the caller's context has a deadline of its own, far beyond anything in this
+					// case (9 virtual minutes): each attempt is still bounded by Timeout
+					var c2 context.CancelFunc
+					ctx, c2 = context.WithDeadline(ctx, start.Add(9*time.Minute))
+					defer c2()
+				}
 				if cancelAt >= 0 {
 					go func() { time.Sleep(cancelAt); cancel() }()
 				}
@@ -296,7 +304,7 @@ func TestC18(t *testing.T) {
 			})
 			return nil
 		})
-		rp := map[string]any{"network": network, "targets": bs, "max_concurrency": maxc, "dialer_of_interface_type": ifaceT, "delay": delay.String(), "timeout": timeout.String(), "cancel_at": cancelAt.String()}
+		rp := map[string]any{"network": network, "targets": bs, "max_concurrency": maxc, "dialer_of_interface_type": ifaceT, "caller_context_has_far_deadline": callerDeadline, "delay": delay.String(), "timeout": timeout.String(), "cancel_at": cancelAt.String()}
 		var evs []string
 		for _, e := range events {
 			evs = append(evs, fmt.Sprintf("%s[%d]@%v ok=%v ctxerr=%v dl=%v", e.Kind, e.Target, e.T, e.OK, e.CtxErr, e.Deadline))
@@ -427,7 +435,7 @@ func TestC18(t *testing.T) {
 		}
 		// 4. per-attempt deadline
 		for _, s := range starts {
-			// the caller's context has no deadline of its own, so every attempt gets exactly
+			// the caller's context has no deadline of its own (or one far away), so every attempt gets exactly
 			// Timeout from the instant it begins: more is unbounded, less fails attempts early
 			if !s.HasDL || s.Deadline != effTimeout {
 				ev.Violation(rt, "C18", rp, "attempt %d (begun at %v) runs with a deadline %v after its start (has=%v), Timeout is %v", s.Target, s.T, s.Deadline, s.HasDL, effTimeout)
